@@ -88,11 +88,18 @@ RedeclOf(s, e, o) == LET x == EntByName(s, e)
                          hit == {i \in 1..Len(x.redecl) : x.redecl[i].name = o.name /\ x.redecl[i].of = o.owner}
                      IN IF hit # {} THEN {x.redecl[CHOOSE i \in hit : TRUE].ty}
                         ELSE UNION {RedeclOf(s, x.supers[i], o) : i \in 1..Len(x.supers)}
+RECURSIVE RedeclOptOf(_, _, _)
+RedeclOptOf(s, e, o) == LET x == EntByName(s, e)
+                            hit == {i \in 1..Len(x.redecl) : x.redecl[i].name = o.name /\ x.redecl[i].of = o.owner}
+                        IN IF hit # {} THEN {x.redecl[CHOOSE i \in hit : TRUE].opt}
+                           ELSE UNION {RedeclOptOf(s, x.supers[i], o) : i \in 1..Len(x.supers)}
+(* is the attribute OPTIONAL in entity e? (a redeclaration on the way up may have made it required) *)
+EffOpt(s, e, o) == IF RedeclOptOf(s, e, o) = {} THEN AttrDecl(s, o).opt ELSE CHOOSE b \in RedeclOptOf(s, e, o) : TRUE
 EffTy(s, e, o) == IF RedeclOf(s, e, o) = {} THEN AttrDecl(s, o).ty ELSE CHOOSE t \in RedeclOf(s, e, o) : TRUE
 (* parameters of a simple instance of entity e: AttrOrder; an OPTIONAL attribute is unset every third round *)
 Params(s, e, n) == LET o == AttrOrder(s, e) IN
   [j \in 1..Len(o) |-> LET a == AttrDecl(s, o[j]) IN
-                       IF a.opt /\ (n + j + EntIndex(s, e)) % 3 = 0 THEN Null ELSE ValueOf(s, EffTy(s, e, o[j]), n + j + EntIndex(s, e), 0)]
+                       IF EffOpt(s, e, o[j]) /\ (n + j + EntIndex(s, e)) % 3 = 0 THEN Null ELSE ValueOf(s, EffTy(s, e, o[j]), n + j + EntIndex(s, e), 0)]
 (* a required attribute of entity type can only be given when some instantiable entity of that type exists *)
 Conforming(s) == \A i \in 1..Len(s.ents) : \A j \in 1..Len(s.ents[i].attrs) :
                    LET a == s.ents[i].attrs[j] IN (a.ty.agg = "none" /\ IsEnt(s, a.ty.base) /\ ~a.opt) => HasTarget(s, a.ty.base)
